@@ -183,3 +183,62 @@ func H_C16_External() {
 	v.Assert(f1 != nil && f3 == nil, "and a later creation does not resurrect the removed tokens")
 	v.Reach("end")
 }
+
+// zzSnapshot: what a freshly started server reading the file honours: per
+// token 0 = not honoured, 1 = honoured with its original expiry, 2 = honoured
+// with an edited (48 h) expiry; -1 if the file cannot be read at all.
+func zzSnapshot(filename string) [3]int {
+	var s [3]int
+	fresh := &state{filename: filename}
+	lim := time.Now().Add(36 * time.Hour)
+	for i, n := range zzNames {
+		t, _, err := fresh.Get(n)
+		switch {
+		case err != nil && !os.IsNotExist(err):
+			s[i] = -1
+		case err != nil:
+			s[i] = 0
+		case t.Expires != nil && t.Expires.After(lim):
+			s[i] = 2
+		default:
+			s[i] = 1
+		}
+	}
+	return s
+}
+
+// H_C16_Crash: replacing the token file is atomic.  The same operation
+// (create, edit, delete, sweep) is run once to completion on one file (the
+// NEW set) and once on an identical second file with a crash immediately
+// before its k-th file-system mutation, for every k: what a restarted server
+// then reads is the complete OLD set or the complete NEW set, and the file
+// is readable.
+func H_C16_Crash() {
+	op := v.Choice("op", 8)
+	k := v.Choice("k", v.Param("KMAX"))
+	fileA, cleanupA := zzTokenFile()
+	defer cleanupA()
+	SetStatefulFilename(fileA)
+	zzOp(0, fileA)
+	zzOp(1, fileA)
+	zzOp(2, fileA)
+	zzOp(op, fileA)
+	newSet := zzSnapshot(fileA)
+
+	fileB, cleanupB := zzTokenFile()
+	defer cleanupB()
+	SetStatefulFilename(fileB)
+	zzOp(0, fileB)
+	zzOp(1, fileB)
+	zzOp(2, fileB)
+	oldSet := zzSnapshot(fileB)
+	crashed := v.Crashable(k, func() { zzOp(op, fileB) })
+	got := zzSnapshot(fileB)
+	if crashed {
+		v.Assert(got == oldSet || got == newSet, "after a crash at any step of a token-file update a restarted server finds the complete old or the complete new set of tokens")
+		v.Reach("crashed")
+	} else {
+		v.Assert(got == newSet, "without a crash the operation has its effect")
+	}
+	v.Reach("end")
+}
